@@ -11,7 +11,7 @@ RULE = ("specs generated from the Solr mm grammar as ASTs (integers -45..45, per
         "product n x simple specs x single-clause conditionals; a separate malformed stream must raise "
         "ValueError. Non-trivial = well-formed case whose answer differs from both 0 and n. Distinct = by "
         "(n, spec text).")
-TRUSTED = ["extraction (ExtrOcamlBasic only) + ocaml/driver.ml", "harness/props/c11.py printer of the mm grammar",
+TRUSTED = ["extraction (ExtrOcamlBasic + Extract Inlined Constant rev => List.rev) + ocaml/driver.ml", "harness/props/c11.py printer of the mm grammar",
            "Flocq binary64 model of Python float multiplication and int() truncation",
            "string-level parsing (strip, regex, split, int()) is exercised on the implementation side only"]
 ASSUMPTIONS = ["percentages within -200..200 and n within 0..50 for the float-exactness lemma (stated in the theorem)",
